@@ -1,6 +1,6 @@
 --------------------------- MODULE SummariesDump ---------------------------
 EXTENDS Summaries, Json
-Covs == << <<50, 90>>, <<40, 95>>, <<80, 99>> >>
+Covs == << <<500, 900>>, <<400, 950>>, <<455, 999>> >>
 Dump == CASE Part = "pareto" -> (pts # <<>> => PrintT(ToJson([kind |-> "pareto", pts |-> pts, pos |-> ParetoDef(pts, 1), neg |-> ParetoDef(pts, -1)])))
           [] Part = "box" -> (Len(pts) >= 1 => PrintT(ToJson([kind |-> "box", col |-> pts,
                                   stats |-> [k \in 1..3 |-> BoxDef(pts, Covs[k][1], Covs[k][2])]])))
